@@ -12,6 +12,23 @@ Fixpoint lookup (f : N) (kids : list (N * fs)) : option fs :=
   | (g, x) :: r => if N.eqb f g then Some x else lookup f r
   end.
 
+(* every feature of kb is unified (by u) into the receiver's features acc, added when missing *)
+Fixpoint unify_step (u : fs -> fs -> option fs) (kb : list (N * fs)) (acc : list (N * fs)) : option (list (N * fs)) :=
+  match kb with
+  | [] => Some acc
+  | (f, y) :: rest =>
+    match lookup f acc with
+    | Some x => match u x y with
+                | Some z => unify_step u rest (map (fun p => if N.eqb (fst p) f then (f, z) else p) acc)
+                | None => None
+                end
+    | None => match u (FS None []) y with
+              | Some z => unify_step u rest (acc ++ [(f, z)])
+              | None => None
+              end
+    end
+  end.
+
 (* unify a b: the receiver a gets the information of b *)
 Fixpoint unify (fuel : nat) (a b : fs) : option fs :=
   match fuel with
@@ -25,23 +42,8 @@ Fixpoint unify (fuel : nat) (a b : fs) : option fs :=
       | _, None => Some (FS va [])
       end
     | FS va ka, FS vb kb =>
-      (* every feature of b is unified into a (added when missing); a keeps its own value *)
-      let step := fix step (kb : list (N * fs)) (acc : list (N * fs)) : option (list (N * fs)) :=
-        match kb with
-        | [] => Some acc
-        | (f, y) :: rest =>
-          match lookup f acc with
-          | Some x => match unify n x y with
-                      | Some z => step rest (map (fun p => if N.eqb (fst p) f then (f, z) else p) acc)
-                      | None => None
-                      end
-          | None => match unify n (FS None []) y with
-                    | Some z => step rest (acc ++ [(f, z)])
-                    | None => None
-                    end
-          end
-        end in
-      match step kb ka with Some k => Some (FS va k) | None => None end
+      (* a keeps its own value *)
+      match unify_step (unify n) kb ka with Some k => Some (FS va k) | None => None end
     end
   end.
 
